@@ -87,3 +87,62 @@ def thresholds(prog):
                 if prog["nodes"][a]["op"] == "const":
                     used.add(prog["nodes"][a]["imm"])
     return sorted(used)
+
+
+def eval_prog_vec(prog, cols):
+    """Vectorised independent interpreter of an IR program on NumPy arrays (one array of values per input).
+    Returns list of output arrays."""
+    fmt = prog["fmt"]
+    ft = fpx.NPF[fmt]
+    env = []
+    n = len(cols[0])
+    with warnings.catch_warnings(), numpy.errstate(all="ignore"):
+        warnings.simplefilter("ignore")
+        for nd in prog["nodes"]:
+            op = nd["op"]
+            a = [env[i] for i in nd["args"]]
+            if op == "input":
+                v = cols[nd["imm"]]
+            elif op == "const":
+                v = numpy.full(n, ir.float_of(nd["imm"], fmt), dtype=ft)
+            elif op == "bconst":
+                v = numpy.full(n, bool(nd["imm"]))
+            elif op == "add":
+                v = a[0] + a[1]
+            elif op == "sub":
+                v = a[0] - a[1]
+            elif op == "mul":
+                v = a[0] * a[1]
+            elif op == "div":
+                v = a[0] / a[1]
+            elif op == "neg":
+                v = -a[0]
+            elif op == "abs":
+                v = numpy.abs(a[0])
+            elif op == "sqrt":
+                v = numpy.sqrt(a[0])
+            elif op == "pymax":
+                v = numpy.where(a[1] > a[0], a[1], a[0])
+            elif op == "pymin":
+                v = numpy.where(a[1] < a[0], a[1], a[0])
+            elif op in ("lt", "le", "gt", "ge", "eq", "ne"):
+                v = {"lt": numpy.less, "le": numpy.less_equal, "gt": numpy.greater, "ge": numpy.greater_equal, "eq": numpy.equal,
+                     "ne": numpy.not_equal}[op](a[0], a[1])
+            elif op == "and":
+                v = numpy.logical_and(a[0], a[1])
+            elif op == "or":
+                v = numpy.logical_or(a[0], a[1])
+            elif op == "xor":
+                v = numpy.logical_xor(a[0], a[1])
+            elif op == "not":
+                v = numpy.logical_not(a[0])
+            elif op == "select":
+                v = numpy.where(a[0], a[1], a[2])
+            elif op == "isfinite":
+                v = numpy.isfinite(a[0])
+            elif op.startswith("libm:"):
+                v = ir.NP_LIBM[op[5:]](*a).astype(ft)
+            else:
+                raise ValueError(op)
+            env.append(v)
+    return [env[k] for k in prog["outs"]]
